@@ -99,6 +99,10 @@ type gstate struct {
 	// neighbour's gaps (seeded change C18r3-m2 over-read through the capacity).
 	arena *pairArena
 	odd   bool
+	// value trees decoded ONCE from the pool's documents before the goroutines start and never
+	// written afterwards (keyed by the address of the document's first byte): read-only inputs of
+	// the StdLibCompatible helpers that several goroutines convert at the same time
+	sharedTrees map[*byte]interface{}
 }
 
 type pairArena struct {
@@ -393,6 +397,23 @@ func doOp(st *gstate, op int, d []byte, salt uint64) uint64 {
 		b := rjson.StdLibCompatibleStringBytes(d, dst)
 		return mix(h.HashString(s), h.Hash(b))
 	default:
+		if len(d) > 0 && salt>>58&1 == 1 {
+			if tv, ok := st.sharedTrees[&d[0]]; ok {
+				// a decoded document that other goroutines convert too: the copy is this goroutine's
+				// own and it edits it (seeded change C18r7-m1: nested containers without invalid UTF-8
+				// reused from the argument instead of copied)
+				var res interface{}
+				switch t := tv.(type) {
+				case []interface{}:
+					res = rjson.StdLibCompatibleSlice(t)
+				case map[string]interface{}:
+					res = rjson.StdLibCompatibleMap(t)
+				}
+				x := hashTree(res)
+				scribble(res, 0)
+				return mix(x, hashTree(tv))
+			}
+		}
 		v, _, e := rjson.ReadValue(d)
 		if e != nil {
 			return 3
@@ -486,6 +507,19 @@ func RunC18(c *Ctx) {
 		}
 		gb.Seal()
 	}
+	sharedTrees := map[*byte]interface{}{}
+	for _, d := range pool {
+		if len(d) == 0 || len(d) > 4096 {
+			continue
+		}
+		if v, _, e := rjson.ReadValue(d); e == nil && !treeKeysCollide(v) {
+			switch v.(type) {
+			case []interface{}, map[string]interface{}:
+				sharedTrees[&d[0]] = v
+			}
+		}
+	}
+	c.Rec.Max("decoded_documents_shared_read_only_between_goroutines", int64(len(sharedTrees)))
 	const G = 32
 	steps := 1500
 	if c.Thorough() {
@@ -518,7 +552,7 @@ func RunC18(c *Ctx) {
 			results[g] = make([]uint64, steps)
 			go func(g int) {
 				defer done.Done()
-				st := &gstate{arena: arenas[g/2], odd: g%2 == 1}
+				st := &gstate{arena: arenas[g/2], odd: g%2 == 1, sharedTrees: sharedTrees}
 				res := results[g]
 				debug.SetPanicOnFault(true) // per goroutine: a store into a read-only shared input becomes a panic here
 				start.Wait()
@@ -570,7 +604,7 @@ func RunC18(c *Ctx) {
 		seqArenas[i] = newPairArena()
 	}
 	for g := 0; g < G; g++ {
-		st := &gstate{arena: seqArenas[g/2], odd: g%2 == 1}
+		st := &gstate{arena: seqArenas[g/2], odd: g%2 == 1, sharedTrees: sharedTrees}
 		for i, stp := range scripts[g] {
 			want := doOp(st, stp.op, pool[stp.in], stp.salt)
 			c.Rec.R.Evaluations += 3
